@@ -65,8 +65,10 @@ def layout_s(need_origin=False, small_padding=False):
             for i in draw(st.lists(st.integers(0, 3), min_size=k, max_size=k, unique=True)):
                 sides[i] = draw(ps)
             L["padding"] = sides
-        am = draw(st.integers(0, 3))
-        if am == 1:
+        am = draw(st.integers(0, 4))
+        if am == 4 and draw(st.booleans()):
+            L["align"] = [None, None]       # an alignment object with neither half set
+        elif am == 1:
             L["align"] = [draw(st.sampled_from(HS)), draw(st.sampled_from(VS))]
         elif am == 2:
             L["align"] = [draw(st.sampled_from(HS)), None]
@@ -497,7 +499,13 @@ SETTINGS = ["align:left", "line:10%", "position:20% size:50%", "align:center lin
 
 
 def verbatim_strategy(tier):
-    return st.lists(st.one_of(st.none(), st.sampled_from(SETTINGS)), min_size=1, max_size=5).map(
+    # settings from a small grammar as well: key:value tokens over current, legacy and odd values
+    key = st.sampled_from(["align", "line", "position", "size", "vertical", "region"])
+    val = st.sampled_from(["left", "right", "center", "middle", "start", "end", "50%", "0%", "100%", "33.33%",
+                           "50%,start", "10%,line-left", "-1", "0", "5", "rl", "lr", "fred", "MIDDLE"])
+    tok = st.tuples(key, val).map(lambda t: f"{t[0]}:{t[1]}")
+    gen_settings = st.lists(tok, min_size=1, max_size=4).map(" ".join)
+    return st.lists(st.one_of(st.none(), st.sampled_from(SETTINGS), gen_settings), min_size=1, max_size=5).map(
         lambda xs: {"settings": xs})
 
 
